@@ -60,8 +60,9 @@ pub fn eval(job: &Job) -> JobResult {
     let mut r = match job.check.as_str() {
         "C01" => eval_c01(job),
         "C02" | "C03" => eval_c02_c03(job),
+        "C04" => eval_c04(job),
         "C05" => eval_c05(job),
-        "C07" | "C08" | "C09" | "C11" => eval_conf(job),
+        "C07" | "C08" | "C09" | "C10" | "C11" => eval_conf(job),
         other => JobResult { machinery_error: Some(format!("unknown check {}", other)), ..Default::default() },
     };
     r.id = job.id.clone();
@@ -341,6 +342,75 @@ fn eval_conf(job: &Job) -> JobResult {
             };
             res.violations.push(viol(kind, v, format!("{:?}", bad), msg, json!({"reference_witness": sc.witness})));
         }
+    }
+    res
+}
+
+// ------------------------------------------------------------------------------------------
+// C04: data races are reported exactly
+// ------------------------------------------------------------------------------------------
+
+fn eval_c04(job: &Job) -> JobResult {
+    let p = &job.program;
+    let mut res = JobResult::default();
+    let expected_race: bool;
+    let mut other_bad = false;
+    let mut refinfo = json!({});
+    if rc11::supported(p) {
+        let rc = rc11::enumerate(p, Variant::Rc11, RC_MAX_STATES);
+        let rcm = if p.has_sc_access() { rc11::enumerate(p, Variant::Rc11Minus, RC_MAX_STATES) } else { rc.clone() };
+        if rc.truncated || rcm.truncated {
+            res.machinery_error = Some("RC11 enumerator truncated".into());
+            return res;
+        }
+        res.states = rc.states;
+        res.transitions = rc.transitions;
+        res.ref_outcomes = rc.outcomes.len() as u64;
+        if rc.race != rcm.race || rc.stuck {
+            res.dont_care = true;
+            return res;
+        }
+        expected_race = rc.race;
+        refinfo = json!({"engine": "rc11", "consistent_executions": rc.consistent, "racy_outcomes": outs_json(rc.racy_outcomes.iter())});
+    } else {
+        let sc = scm::explore(p, scm::Mode { hb: true, any_waiter: false, spurious: true }, SC_MAX_STATES);
+        if sc.truncated {
+            res.machinery_error = Some("SC machine truncated".into());
+            return res;
+        }
+        res.states = sc.states;
+        res.transitions = sc.transitions;
+        res.ref_outcomes = sc.done.len() as u64;
+        expected_race = sc.race;
+        other_bad = sc.bad_kinds().iter().any(|k| k != "Race");
+        refinfo = json!({"engine": "sc+hb", "bad": sc.bad_kinds(), "race_witness": sc.witness.get("race")});
+    }
+    res.nontrivial = expected_race;
+    let (sum, col) = run_loom(p, &job.cfg, None);
+    res.loom_iterations = col.iters;
+    res.verdict = sum.verdict.short();
+    res.capped = sum.verdict == Verdict::Capped;
+    res.sample = json!({"program": p.text(), "reference": refinfo, "expected_race": expected_race, "loom_verdict": res.verdict, "loom_iterations": col.iters});
+    if res.capped {
+        return res;
+    }
+    let msg = sum.message.lines().next().unwrap_or("").to_string();
+    if other_bad {
+        // several kinds of bad executions: loom may report any of them
+        res.dont_care = true;
+        return res;
+    }
+    if expected_race {
+        if sum.verdict == Verdict::Race {
+            res.traces_validated += 1;
+        } else {
+            res.violations.push(viol("missed_race", sum.verdict.short(), "Race".into(), msg, refinfo));
+        }
+    } else if sum.verdict == Verdict::Ok {
+        res.traces_validated += 1;
+    } else {
+        let kind = if sum.verdict == Verdict::Race { "false_race" } else { "unexpected_verdict" };
+        res.violations.push(viol(kind, sum.verdict.short(), "Ok".into(), msg, refinfo));
     }
     res
 }
